@@ -104,9 +104,11 @@ def round_trip(ctx, obj, kind, steps, rng):
                 return False
     d = tempfile.mkdtemp(prefix="c12-", dir=os.environ.get("HVMON_SCRATCH"))
     path = os.path.join(d, "out.csv")
+    import pathlib
+    path_arg = pathlib.Path(path) if rng.random() < 0.3 else path        # str or path-like file names
     try:
         with np.errstate(all="ignore"):
-            hvsrpy.write_hvsr_object_to_file(obj, path, distribution_mc=dmc, distribution_fn=dfn)
+            hvsrpy.write_hvsr_object_to_file(obj, path_arg, distribution_mc=dmc, distribution_fn=dfn)
         ctx.count("writes")
         dd = snap.diff(before_all, snap.snap(obj))
         ctx.check(not dd, "write-leaves-object-unchanged", "writing changed the object", differences=dd[:5], **info)
@@ -136,7 +138,7 @@ def round_trip(ctx, obj, kind, steps, rng):
             ctx.check(okm, "file-derived-columns-are-the-objects", "the mean / std columns stored in the file are not those of the "
                       "object that was written", file_mean=arr[:4, -2], object_mean=want_mean[:4],
                       equals_mean_curve_of_azimuth=which, n_azimuths=len(obj.hvsrs) if kind == "azimuthal" else None, **info)
-        back = hvsrpy.read_hvsr_object_from_file(path)
+        back = hvsrpy.read_hvsr_object_from_file(path_arg)
         ctx.count("reads")
     finally:
         try:
